@@ -1150,7 +1150,7 @@ static void bfs(Run &r, Make make, int depth)
 				if (seen.insert(h).second) {
 					if (r.samples.size() < 4 && v.size() >= 4) { std::string t; for (size_t i = 1; i < v.size(); ++i) t += (i > 1 ? " ; " : "") + s->opname((int) v[i]); r.sample(t); }
 					// every new state is also torn down completely (checked): nothing may survive the last handle
-					if (s->teardown(s->opbase(op))) { frontier.push_back(Node{v, h}); ++r.states; }
+					if (s->teardown(s->opbase(op))) { frontier.push_back(Node{v, h}); ++r.states; r.count(fmt("new states at depth %02zu", v.size() - 1)); }
 				}
 			}
 			delete s; s = 0;
@@ -1199,6 +1199,7 @@ void mc_jobs(Tier t, std::vector<std::string> &jobs)
 	(void) t;
 	for (int k = 0; k < NKINDS; ++k) for (int i = 0; i < BSys::NINIT; ++i) jobs.push_back(std::string("buf:") + kind_name[k] + ":" + std::to_string(i));
 	for (int m = 0; m <= M_ITEM; ++m) for (int i = 0; i < CSys::NINIT; ++i) jobs.push_back("cxx:" + std::to_string(m) + ":" + std::to_string(i));
+	if (getenv("C05_ONLY")) { std::vector<std::string> f; for (auto &j : jobs) if (!j.compare(0, strlen(getenv("C05_ONLY")), getenv("C05_ONLY"))) f.push_back(j); jobs = f; }   /*DEVONLY*/
 }
 static bool parse_cxx(const std::string &job, int &mode, uint64_t &init)
 {
